@@ -105,6 +105,81 @@ func runC05(c *ShardCtx) {
 			runGrammar(c, g, fam)
 		}
 	}
+	// rule cycles: three rules calling each other in a ring (behind a terminal), ONE #{} block at
+	// every position of the ring (before / after the recursive call, in the leaf alternative), a
+	// lookahead predicate (& and !, over a rule alone and over a rule followed by a terminal) over
+	// every rule of the ring placed in every rule, every rule order: what a succeeding or failing
+	// lookahead did to the store is undone whatever the callee reaches through the cycle
+	{
+		lit := peg.Lit
+		names := []string{"X", "Y", "Z"}
+		heads := []string{"a", "b", "c"}
+		leafs := []string{"x", "y", "z"}
+		var ringInputs [][]byte
+		for _, in := range peg.Inputs([]string{"a", "b", "c", "x", "y"}, 4) {
+			if len(in) > 0 && in[0] == 'a' { // (X starts with "a"; everything else fails at once)
+				ringInputs = append(ringInputs, in)
+			}
+		}
+		for stRule := 0; stRule < 3; stRule++ {
+			for stPos := 0; stPos < 3; stPos++ {
+				for predKind := 0; predKind < 4; predKind++ {
+					for predOver := 0; predOver < 3; predOver++ {
+						for predIn := 0; predIn < 3; predIn++ {
+							idx++
+							if !c.Mine(idx) {
+								continue
+							}
+							if c.Expired("rule cycle family") {
+								return
+							}
+							for rot := 0; rot < 3; rot++ {
+								var rules []*peg.Rule
+								for k := 0; k < 3; k++ {
+									r := (k + rot) % 3
+									next := names[(r+1)%3]
+									var items []*peg.Expr
+									if stRule == r && stPos == 0 {
+										items = append(items, peg.StateCode(0))
+									}
+									items = append(items, lit(heads[r]))
+									if predIn == r {
+										var op *peg.Expr
+										switch predKind {
+										case 0:
+											op = peg.And(peg.Ref(names[predOver]))
+										case 1:
+											op = peg.Not(peg.Ref(names[predOver]))
+										case 2:
+											op = peg.And(peg.Seq(peg.Ref(names[predOver]), lit("y")))
+										case 3:
+											op = peg.Not(peg.Seq(peg.Ref(names[predOver]), lit("y")))
+										}
+										items = append(items, op)
+									}
+									items = append(items, peg.Ref(next))
+									if stRule == r && stPos == 1 {
+										items = append(items, peg.StateCode(0))
+									}
+									leaf := lit(leafs[r])
+									if stRule == r && stPos == 2 {
+										leaf = peg.Seq(lit(leafs[r]), peg.StateCode(0))
+									}
+									rules = append(rules, &peg.Rule{Name: names[r], Expr: peg.Choice(peg.Seq(items...), leaf)})
+								}
+								g := &peg.Grammar{Rules: append([]*peg.Rule{{Name: "S", Expr: peg.Action(0, peg.Seq(peg.Label("v", peg.Ref("X")), peg.AndCode(0), peg.Star(peg.Any())))}}, rules...)}
+								peg.Renumber(g, 1)
+								peg.AssignArgs(g)
+								fam := &family{gens: gens2, inputs: ringInputs, opts: opts[:1], scripts: []map[int]*rtapi.Block{mkScript(g, false)}, nontrivial: nontriv,
+									cmp: core.CmpOpts{EventKey: stateKey, SkipNoMatch: true}, confEvery: 211, confQuota: 1}
+								runGrammar(c, g, fam)
+							}
+						}
+					}
+				}
+			}
+		}
+	}
 	// cross family (cross.go): every body with a #{} block next to every other construct, under
 	// every flag set; every block tries to change all three stores
 	if !runCross(c, &idx, &crossSpec{maxSize: 3, gens: gens16, inputs: crossInputsSmall, opts: opts,
